@@ -299,6 +299,8 @@ func baseTrees() []fsmodel.Tree {
 	}
 	// two sibling directories with entries of the same names (a release switch: cur -> v1)
 	trees = append(trees, fsmodel.Tree{d("cur", 1), f("cur/app", 1, 9, 2), f("cur/conf", 2, 3, 3), d("v1", 4), f("v1/app", 3, 8, 5), f("v1/conf", 4, 4, 6), d("v1/sub", 7), d("cur/sub", 8), f("cur/sub/x", 5, 2, 9), f("v1/sub/x", 6, 2, 10)})
+	// names that look like the writer's own temporary names, next to entries that get replaced
+	trees = append(trees, fsmodel.Tree{f(".tmp.0", 11, 70, 1), f(".tmp.1", 12, 80, 2), f(".tmp.2", 13, 90, 3), f("a", 1, 5, 4), d("b", 5), f("b/.tmp.1", 14, 60, 6), f("b/c", 2, 7, 7)})
 	trees[3][0].HL = 1
 	for i := range trees {
 		trees[i].Sort()
